@@ -59,6 +59,8 @@ type verifScn struct {
 	// fault injection (C08): returns true when the handler call must fault
 	faultHook func(name string) bool
 	faultNow  bool
+	// eventHook is called with the event of every handler call
+	eventHook func(name string, e *Event)
 }
 
 func verifHandlerNames(names S) (neg []string, fin []string) {
@@ -118,13 +120,21 @@ func (s *verifScn) bindAll(vetoOK, withException bool) {
 		}
 		s.veto[name] = v
 		negs[name] = func(e *Event) bool {
+			if s.eventHook != nil {
+				s.eventHook(name, e)
+			}
 			s.record(name)
 			return !s.veto[name]
 		}
 	}
 	for _, name := range fin {
 		name := name
-		fins[name] = func(e *Event) { s.record(name) }
+		fins[name] = func(e *Event) {
+			if s.eventHook != nil {
+				s.eventHook(name, e)
+			}
+			s.record(name)
+		}
 	}
 	s.m.HandlersBindMaps(negs, fins)
 	vServe(s.m.handlerStart, func(call *handlerCall) {
